@@ -1,4 +1,4 @@
 SPECIFICATION Spec
 CONSTANT MaxChain = 3
-INVARIANTS PathShaped Emit EmitNames EmitImported
+INVARIANTS PathShaped Emit EmitNames EmitImported EmitClassHosts
 CHECK_DEADLOCK FALSE
